@@ -34,46 +34,46 @@ variable {cfg : Cfg σ} {cx : Ctx} (hc : TypedCfg cfg cx) (F : Follow)
 include hc
 
 theorem ejoin_typed {wn : WalkFn σ} (hwn : NodeOK cfg cx F wn) (path : Path) (src : Src) (k : String)
-    (as : List (String × Val)) (hw : wfVal cx (.node k as) = true) (pos : Option Int) (sep : List Rule) (ks : List String)
+    (as : List (String × Val)) (hw : wfVal cx (.node k as) = true) (pos : Option Int) (sep : List Rule) (sp : Nat) (ks : List String)
     (e : Abs) (he : certOf cx cx.esep = some e)
     (hxb : (kindsRes cx (ks.filter (fun k => !cx.elisionKinds.contains k))).bad = false)
     (heb : (kindsRes cx (ks.filter (fun k => cx.elisionKinds.contains k))).bad = false)
-    (hsb : (absRules cx k sep).bad = false) (hsn : ∀ p ∈ (absRules cx k sep).need, p ∈ F)
+    (hsb : (absRules cx k sp sep).bad = false) (hsn : ∀ p ∈ (absRules cx k sp sep).need, p ∈ F)
     (hen : e.n = false)
     (hxn : (kindsRes cx (ks.filter (fun k => !cx.elisionKinds.contains k))).abs.n = false)
     (hien : (kindsRes cx (ks.filter (fun k => cx.elisionKinds.contains k))).abs.n = false)
     (mf : SymSet)
-    (hmf : mf = (absRules cx k sep).abs.f ++ (if (absRules cx k sep).abs.n then
+    (hmf : mf = (absRules cx k sp sep).abs.f ++ (if (absRules cx k sp sep).abs.n then
       (kindsRes cx (ks.filter (fun k => !cx.elisionKinds.contains k))).abs.f else SymSet.empty) ++
       (kindsRes cx (ks.filter (fun k => cx.elisionKinds.contains k))).abs.f)
     (hc1 : ∀ p ∈ cross (kindsRes cx (ks.filter (fun k => !cx.elisionKinds.contains k))).abs e, p ∈ F)
     (hc2 : ∀ p ∈ cross e ⟨false, mf, SymSet.empty⟩, p ∈ F)
-    (hc3 : ∀ p ∈ cross (absRules cx k sep).abs (kindsRes cx (ks.filter (fun k => !cx.elisionKinds.contains k))).abs, p ∈ F)
+    (hc3 : ∀ p ∈ cross (absRules cx k sp sep).abs (kindsRes cx (ks.filter (fun k => !cx.elisionKinds.contains k))).abs, p ∈ F)
     (hc4 : ∀ p ∈ cross (kindsRes cx (ks.filter (fun k => cx.elisionKinds.contains k))).abs ⟨false, mf, SymSet.empty⟩, p ∈ F)
     (items : List (Step × Val)) (hit : ItemsOK cx ks items) (s : σ) (cs : List Chunk) (s' : σ)
     (h : seqM (runAct cfg wn path src (.node k as) pos sep) (elisionActs cfg.hd.elisionKinds items) s = .ok (cs, s')) :
-    InLang F ⟨true, (kindsRes cx (ks.filter (fun k => !cx.elisionKinds.contains k))).abs.f ++
+    Ann cfg.hd F ⟨true, (kindsRes cx (ks.filter (fun k => !cx.elisionKinds.contains k))).abs.f ++
         (kindsRes cx (ks.filter (fun k => cx.elisionKinds.contains k))).abs.f,
       (kindsRes cx (ks.filter (fun k => !cx.elisionKinds.contains k))).abs.l ++
-        (kindsRes cx (ks.filter (fun k => cx.elisionKinds.contains k))).abs.l⟩ (syms cfg.hd cs) := by
+        (kindsRes cx (ks.filter (fun k => cx.elisionKinds.contains k))).abs.l⟩ cs := by
   generalize hIX : (kindsRes cx (ks.filter (fun k => !cx.elisionKinds.contains k))).abs = IX at *
   generalize hIE : (kindsRes cx (ks.filter (fun k => cx.elisionKinds.contains k))).abs = IE at *
-  generalize hS : (absRules cx k sep).abs = S at *
+  generalize hS : (absRules cx k sp sep).abs = S at *
   -- units
-  have hE : ∀ s cs s', runAct cfg wn path src (.node k as) pos sep .esep s = .ok (cs, s') → InLang F e (syms cfg.hd cs) := by
+  have hE : ∀ s cs s', runAct cfg wn path src (.node k as) pos sep .esep s = .ok (cs, s') → Ann cfg.hd F e cs := by
     intro s cs s' hr
     obtain ⟨asep, h1, h2⟩ := hc.esep
     simp only [runAct, h1] at hr
     obtain ⟨a, g1, g2⟩ := hwn _ _ cx.esep asep Option.none _ _ _ h2 hr
     rw [he] at g1; cases g1; exact g2
-  have hSep : ∀ s cs s', runAct cfg wn path src (.node k as) pos sep .sep s = .ok (cs, s') → InLang F S (syms cfg.hd cs) := by
+  have hSep : ∀ s cs s', runAct cfg wn path src (.node k as) pos sep .sep s = .ok (cs, s') → Ann cfg.hd F S cs := by
     intro s cs s' hr
     simp only [runAct] at hr
-    have := hwn _ _ k as (some sep) _ _ _ hw hr hsb hsn
+    have := hwn _ _ k as (some sep) _ _ _ hw hr sp hsb hsn
     rw [hS] at this; exact this
   have hItem : ∀ (q : Step × Val), (∃ k' as', q.2 = .node k' as' ∧ k' ∈ ks ∧ wfVal cx (.node k' as') = true) →
       ∀ s cs s', runAct cfg wn path src (.node k as) pos sep (.item q.1 q.2) s = .ok (cs, s') →
-      InLang F (if isKind cfg.hd.elisionKinds q.2 then IE else IX) (syms cfg.hd cs) := by
+      Ann cfg.hd F (if isKind cfg.hd.elisionKinds q.2 then IE else IX) cs := by
     intro q ⟨k', as', hq, hk', hw'⟩ s cs s' hr
     simp only [runAct, hq, walkValue] at hr
     obtain ⟨a, g1, g2⟩ := hwn _ _ k' as' Option.none _ _ _ hw' hr
@@ -82,14 +82,14 @@ theorem ejoin_typed {wn : WalkFn σ} (hwn : NodeOK cfg cx F wn) (path : Path) (s
     by_cases hel : cx.elisionKinds.contains k' = true
     · rw [if_pos hel]
       obtain ⟨a', g3, g4⟩ := kindsRes_mem cx _ heb k' (List.mem_filter.mpr ⟨hk', hel⟩)
-      rw [g1] at g3; cases g3; rw [hIE] at g4; exact inLang_le g2 g4
+      rw [g1] at g3; cases g3; rw [hIE] at g4; exact ann_le g2 g4
     · rw [if_neg hel]
       obtain ⟨a', g3, g4⟩ := kindsRes_mem cx _ hxb k' (List.mem_filter.mpr ⟨hk', by simpa using hel⟩)
-      rw [g1] at g3; cases g3; rw [hIX] at g4; exact inLang_le g2 g4
+      rw [g1] at g3; cases g3; rw [hIX] at g4; exact ann_le g2 g4
   -- the part after an item, by the category of that item
   have htail : ∀ (rest : List (Step × Val)), ItemsOK cx ks rest → ∀ (prev : Val) s cs s',
       seqM (runAct cfg wn path src (.node k as) pos sep) (elisionActsAux cfg.hd.elisionKinds prev rest) s = .ok (cs, s') →
-      InLang F (if isKind cfg.hd.elisionKinds prev then ⟨true, mf, IX.l ++ IE.l⟩ else ⟨true, e.f, IX.l ++ IE.l⟩) (syms cfg.hd cs) := by
+      Ann cfg.hd F (if isKind cfg.hd.elisionKinds prev then ⟨true, mf, IX.l ++ IE.l⟩ else ⟨true, e.f, IX.l ++ IE.l⟩) cs := by
     intro rest
     induction rest with
     | nil =>
@@ -97,7 +97,7 @@ theorem ejoin_typed {wn : WalkFn σ} (hwn : NodeOK cfg cx F wn) (path : Path) (s
       simp only [elisionActsAux] at hr
       rw [seqM_nil_ok] at hr
       rw [hr.1]
-      split <;> exact inLang_nil F rfl
+      split <;> exact ann_nil cfg.hd F rfl
     | cons y ys ih =>
       intro hys prev s cs s' hr
       obtain ⟨st, nx⟩ := y
@@ -109,13 +109,13 @@ theorem ejoin_typed {wn : WalkFn σ} (hwn : NodeOK cfg cx F wn) (path : Path) (s
       have e3 := hItem (st, nx) (hys (st, nx) (by simp)) s2 p3 s3 hr3
       have e4 := ih (fun q hq => hys q (by simp [hq])) nx s3 p4 s' hr4
       -- the middle part `p2 ++ p3 ++ p4`
-      have hmid : InLang F ⟨false, mf, IX.l ++ IE.l⟩ (syms cfg.hd (p2 ++ (p3 ++ p4))) := by
+      have hmid : Ann cfg.hd F ⟨false, mf, IX.l ++ IE.l⟩ (p2 ++ (p3 ++ p4)) := by
         by_cases hnx : isKind cfg.hd.elisionKinds nx = true
         · simp only [hnx, if_true] at e3 e4 hr2
           rw [seqM_nil_ok] at hr2
-          rw [hr2.1, List.nil_append, syms_append]
-          have := inLang_append' e3 e4 (fun x hx y hy => inF_cross hc4 hx hy)
-          refine inLang_weaken this (fun hn => by simp [Abs.seq, hien] at hn) ?_ ?_
+          rw [hr2.1, List.nil_append]
+          have := ann_append' e3 e4 (fun x hx y hy => inF_cross hc4 hx hy)
+          refine ann_weaken this (fun hn => by simp [Abs.seq, hien] at hn) ?_ ?_
           · intro x hx
             rcases mem_seq_f.mp hx with hx | ⟨hn, _⟩
             · show x ∈ mf
@@ -128,13 +128,12 @@ theorem ejoin_typed {wn : WalkFn σ} (hwn : NodeOK cfg cx F wn) (path : Path) (s
             · exact (SymSet.mem_append _ _ _).mpr (Or.inr hx)
         · simp only [hnx, Bool.false_eq_true, if_false] at e3 e4 hr2
           have e2 := hSep s1 p2 s2 (seqM_single_ok _ _ _ _ _ (by simpa using hr2))
-          rw [syms_append, syms_append]
-          have e34 := inLang_append' e3 e4 (fun x hx y hy => inF_cross hc1 hx hy)
-          have e234 := inLang_append' e2 e34 (fun x hx y hy => by
+          have e34 := ann_append' e3 e4 (fun x hx y hy => inF_cross hc1 hx hy)
+          have e234 := ann_append' e2 e34 (fun x hx y hy => by
             rcases mem_seq_f.mp hy with hy | ⟨hn, _⟩
             · exact inF_cross hc3 hx hy
             · rw [hxn] at hn; cases hn)
-          refine inLang_weaken e234 (fun hn => by simp [Abs.seq, hxn] at hn) ?_ ?_
+          refine ann_weaken e234 (fun hn => by simp [Abs.seq, hxn] at hn) ?_ ?_
           · intro x hx
             show x ∈ mf
             rw [hmf]
@@ -154,12 +153,12 @@ theorem ejoin_typed {wn : WalkFn σ} (hwn : NodeOK cfg cx F wn) (path : Path) (s
       · simp only [hprev, if_true] at hr1 ⊢
         rw [seqM_nil_ok] at hr1
         rw [hr1.1, List.nil_append]
-        exact inLang_weaken hmid (fun _ => rfl) (fun _ hx => hx) (fun _ hx => hx)
+        exact ann_weaken hmid (fun _ => rfl) (fun _ hx => hx) (fun _ hx => hx)
       · simp only [hprev, Bool.false_eq_true, if_false] at hr1 ⊢
         have e1 := hE s p1 s1 (seqM_single_ok _ _ _ _ _ (by simpa using hr1))
-        rw [List.append_assoc, syms_append]
-        have := inLang_append' e1 hmid (fun x hx y hy => inF_cross hc2 hx hy)
-        refine inLang_weaken this (fun _ => rfl) ?_ ?_
+        rw [List.append_assoc]
+        have := ann_append' e1 hmid (fun x hx y hy => inF_cross hc2 hx hy)
+        refine ann_weaken this (fun _ => rfl) ?_ ?_
         · intro x hx
           rcases mem_seq_f.mp hx with hx | ⟨hn, _⟩
           · exact hx
@@ -172,7 +171,7 @@ theorem ejoin_typed {wn : WalkFn σ} (hwn : NodeOK cfg cx F wn) (path : Path) (s
   | nil =>
     simp only [elisionActs] at h
     rw [seqM_nil_ok] at h
-    rw [h.1]; exact inLang_nil F rfl
+    rw [h.1]; exact ann_nil cfg.hd F rfl
   | cons x rest =>
     obtain ⟨st, v⟩ := x
     simp only [elisionActs] at h
@@ -180,11 +179,10 @@ theorem ejoin_typed {wn : WalkFn σ} (hwn : NodeOK cfg cx F wn) (path : Path) (s
     obtain ⟨p3, s3, p4, hr3, hr4, rfl⟩ := h
     have e3 := hItem (st, v) (hit (st, v) (by simp)) s p3 s3 hr3
     have e4 := htail rest (fun q hq => hit q (by simp [hq])) v s3 p4 s' hr4
-    rw [syms_append]
     by_cases hv : isKind cfg.hd.elisionKinds v = true
     · simp only [hv, if_true] at e3 e4
-      have := inLang_append' e3 e4 (fun x hx y hy => inF_cross hc4 hx hy)
-      refine inLang_weaken this (fun _ => rfl) ?_ ?_
+      have := ann_append' e3 e4 (fun x hx y hy => inF_cross hc4 hx hy)
+      refine ann_weaken this (fun _ => rfl) ?_ ?_
       · intro x hx
         rcases mem_seq_f.mp hx with hx | ⟨hn, _⟩
         · exact (SymSet.mem_append _ _ _).mpr (Or.inr hx)
@@ -194,8 +192,8 @@ theorem ejoin_typed {wn : WalkFn σ} (hwn : NodeOK cfg cx F wn) (path : Path) (s
         · exact hx
         · exact (SymSet.mem_append _ _ _).mpr (Or.inr hx)
     · simp only [hv, Bool.false_eq_true, if_false] at e3 e4
-      have := inLang_append' e3 e4 (fun x hx y hy => inF_cross hc1 hx hy)
-      refine inLang_weaken this (fun _ => rfl) ?_ ?_
+      have := ann_append' e3 e4 (fun x hx y hy => inF_cross hc1 hx hy)
+      refine ann_weaken this (fun _ => rfl) ?_ ?_
       · intro x hx
         rcases mem_seq_f.mp hx with hx | ⟨hn, _⟩
         · exact (SymSet.mem_append _ _ _).mpr (Or.inl hx)
